@@ -84,6 +84,8 @@ MEMBERS = [
     'C13_senv_of_ok',
     'C13_pot_fill_tr_inv',
     'C13_options_same_written_tr_env_linked',
+    'C13_pot_fill_tr_acyclic',
+    'C13_final_state_model',
     'C13_fill_tr_items',
     'C13_finish_is_c01_prune_linked',
 ]
@@ -113,8 +115,9 @@ ASSUMPTIONS = [
     'with FILL/TRCL transformations (C13_options_same_written_tr_env_linked): '
     'the surface environment of each run is constructed from the senses of '
     'the deck\'s surfaces by the interface law (discharged: C13_senv_of_ok); '
-    'still assumed: a model D of the final cell table of each run, and the '
-    'TRIPOLI-4 level reading of that environment at the point (C02/C04); the '
+    'a model D of the final cell table exists and is unique (discharged: '
+    'C13_final_state_model); still assumed: the TRIPOLI-4 level reading of '
+    'that environment at the point (C02/C04); the '
     'conversion lists are given; lattices (develop_lattice) are outside',
     'helper planes: sigma u0 -> sigma u1 (x > 1 implies x > -1) is a '
     'hypothesis of the volume-level theorems (C01_partition_points proves it '
